@@ -6,6 +6,7 @@
    correspondence on the fragment lists the real fragment() produced (verif hook). *)
 From Coq Require Import List String ZArith NArith Bool.
 Import ListNotations.
+From DV Require Import Model.Decision Gen.EntrySrc.
 From DV Require Import Gen.RestoreSrc.
 From DV Require Import Model.Tree Model.Tables Model.Skeleton Model.FragSkel Model.Values Model.Link Model.Fragment Model.Decorate Model.Restore
      Proofs.LinkProofs Proofs.LinkPanic Proofs.LinkLocal Proofs.LinkOrder Proofs.LinkCount Proofs.FragProofs Proofs.RestoreProofs
@@ -189,6 +190,26 @@ Proof. vm_compute. repeat split; reflexivity. Qed.
 Theorem C03_restorefile_hands_every_comment_group_to_the_file : restorefile_finishes_as_the_model = true.
 Proof. vm_compute. reflexivity. Qed.
 
+
+(* every print entry point hands exactly the file RestoreFile returned, with its FileSet, to format.Node -- none prints through another configuration, none skips go/format (translated wrappers, see C01) *)
+Theorem C03_every_print_entry_point_formats_the_restored_file :
+  entry_points_src =
+  [("Parse", [DRet (DVal "NewDecorator(token.NewFileSet()).Parse(src)")]);
+   ("ParseFile", [DRet (DVal "NewDecorator(fset).ParseFile(filename,src,mode)")]);
+   ("ParseDir", [DRet (DVal "NewDecorator(fset).ParseDir(dir,filter,mode)")]);
+   ("Decorate", [DRet (DVal "NewDecorator(fset).DecorateNode(n)")]);
+   ("DecorateFile", [DRet (DVal "NewDecorator(fset).DecorateFile(f)")]);
+   ("Print", [DRet (DVal "Fprint(os.Stdout,f)")]);
+   ("Fprint", [DGuard "fails(RestoreFile(f))" false DErr; DRet (DVal "format.Node(w,RestoreFile(f).0,RestoreFile(f).1)")]);
+   ("RestoreFile", [DGuard "fails(NewRestorer().RestoreFile(file))" false DErr;
+                    DRet (DVal "NewRestorer().Fset , NewRestorer().RestoreFile(file) , nil")]);
+   ("Restorer.Print", [DRet (DVal "pr.Fprint(os.Stdout,f)")]);
+   ("Restorer.Fprint", [DGuard "fails(pr.RestoreFile(f))" false DErr; DRet (DVal "format.Node(w,pr.Fset,pr.RestoreFile(f))")]);
+   ("Restorer.RestoreFile", [DRet (DVal "pr.FileRestorer().RestoreFile(file)")]);
+   ("FileRestorer.Print", [DRet (DVal "r.Fprint(os.Stdout,f)")]);
+   ("FileRestorer.Fprint", [DGuard "fails(r.RestoreFile(f))" false DErr; DRet (DVal "format.Node(w,r.Fset,r.RestoreFile(f))")])].
+Proof. vm_compute. reflexivity. Qed.
+
 Print Assumptions C03_fragments_cover_every_part.
 Print Assumptions C03_restorer_mirrors_decorator.
 Print Assumptions C03_token_values_survive_both_conversions.
@@ -206,3 +227,4 @@ Print Assumptions C03_tables_fit_together.
 Print Assumptions C03_pipeline_keeps_every_comment.
 Print Assumptions C03_restorer_renders_each_comment_once.
 Print Assumptions C03_restorefile_hands_every_comment_group_to_the_file.
+Print Assumptions C03_every_print_entry_point_formats_the_restored_file.
